@@ -92,6 +92,9 @@ type GruleV3ParserListener struct {
 	StopParse     bool
 	ErrorCallback *pkg.GruleErrorReporter
 	KnowledgeBase *ast.KnowledgeBase
+
+	// duplicateErrors counts the reported errors that are about a duplicate rule name only
+	duplicateErrors int
 }
 
 // VisitTerminal is called when a terminal node is visited.
@@ -132,6 +135,11 @@ func (thisListener *GruleV3ParserListener) ExitGrl(ctx *grulev3.GrlContext) {
 	}
 	if _, ok := thisListener.Stack.Pop().(*ast.Grl); !ok {
 		thisListener.StopParse = true
+
+		return
+	}
+	if len(thisListener.ErrorCallback.Errors) > thisListener.duplicateErrors {
+		// lexer, parser or literal errors: the resource is rejected as a whole
 
 		return
 	}
@@ -183,6 +191,7 @@ func (thisListener *GruleV3ParserListener) ExitRuleEntry(ctx *grulev3.RuleEntryC
 	}
 	err := entryReceiver.ReceiveRuleEntry(entry)
 	if err != nil {
+		thisListener.duplicateErrors++
 		thisListener.ErrorCallback.AddError(err)
 	} else {
 		LoggerV3.Debugf("Added RuleEntry : %thisListener", entry.RuleName)
